@@ -64,10 +64,16 @@ Pool(v) ==
      \* 16 knock_restricted join authorised by the creator
      Step(WithJR(RoomBase, "knock_restricted"), [MemberEv("bob", "bob", "join") EXCEPT !.authvia = "creator"], 1, 0, 5),
      \* 17 knock under that same knock_restricted rule
-     Step(WithJR(RoomBase, "knock_restricted"), MemberEv("alice", "alice", "knock"), 1, 0, 5)
+     Step(WithJR(RoomBase, "knock_restricted"), MemberEv("alice", "alice", "knock"), 1, 0, 5),
+     \* 18-21 the sender's own membership differs from that of an earlier step (nothing about a sender may be
+     \* carried from one check to the next): bob has left / is banned / was never there; alice has not joined
+     Step(WithMem(RoomBase, "bob", "leave"), Msg("bob"), 1, 0, 0),
+     Step(WithMem(RoomBase, "bob", "ban"), Msg("bob"), 1, 0, 0),
+     Step(WithPL(RoomBase, PLOne(1, 2)), Msg("bob"), 1, 2, 0),
+     Step(RoomBase, Topic("alice"), 1, 0, 0)
   >>
 
-NPool == 17
+NPool == 21
 
 None == [none |-> TRUE]
 
